@@ -32,6 +32,7 @@ INT_TYPES = {"int", "int64_t", "long", "long long", "int16_t", "int8_t", "char",
 # scalar functions of easel.c called by the vector routines: C name -> (Lean name, class the generated caller needs); hand model in
 # lean/EaselModel/Vec/Model.lean, compared bit-exactly with the C function through the harness op `cmpold`
 LIBM_D = {"exp": "VInf.exp", "log": "VInf.log", "exp2": "VInf.exp2", "log2": "VNum.log2"}      # double libm calls -> class operations
+LIBM_F = {"expf": "VInf.exp", "logf": "VInf.log", "exp2f": "VInf.exp2", "log2f": "VNum.log2"}  # float libm calls -> the same operations at the float type
 EXTERNAL = {"esl_DCompare_old": ("compareOldStatus", "VCmp"), "esl_FCompare_old": ("compareOldStatus", "VCmp")}
 LEAN_KW = c2lean.LEAN_KEYWORDS | {"rd", "wr", "loop", "s", "pure", "max", "min"}
 
@@ -70,6 +71,8 @@ class Fn:
         self.vcmp = False       # calls esl_{D,F}Compare_old (`VCmp`)
         self.vinf = False       # floating-point routine using negation / infinity / exp / log / exp2 (`VInf`)
         self.vnum = False       # floating-point routine using division / log2 / `(double) n` (`VNum`)
+        self.winf = False       # ... and among them negation / infinity / exp / log (`VInf ω`; otherwise `VNum ω` suffices)
+        self.mix = False        # a `float` routine with sub-expressions the C text evaluates in `double` (`VMix α ω`: widen / narrow)
         self.wrap = False       # uses gcc's wrap-around / truncation semantics (`CWrap`): the `return x1 - x2` comparator idiom
         self.stats = {"n_reads": 0, "n_writes": 0, "n_loops": 0, "n_ops": 0, "n_calls": 0}
 
@@ -315,19 +318,24 @@ class Fn:
             out.extend("    " + l for l in el + ["pure %s" % y])
             self.monadic = True
             return a
-        elif k == "CallExpr" and self.callee(n) in LIBM_D:
-            self.need_double(n)
-            if LIBM_D[self.callee(n)].startswith("VNum."): self.vnum = True
+        elif k == "CallExpr" and self.callee(n) in (LIBM_D if self.elemtype == "double" else LIBM_F if self.elemtype == "float" else {}):
+            tab = LIBM_D if self.elemtype == "double" else LIBM_F
+            if tab[self.callee(n)].startswith("VNum."): self.vnum = True
             else: self.vinf = True
             if len(n["inner"]) != 2:
                 raise Unsupported("%s: argument count of %s" % (self.where(n), self.callee(n)))
             x = self.elem(n["inner"][1], out)
-            a = "(%s %s)" % (LIBM_D[self.callee(n)], x); self.stats["n_calls"] += 1
+            a = "(%s %s)" % (tab[self.callee(n)], x); self.stats["n_calls"] += 1
         elif k == "CallExpr" and self.callee(n) in self.known and self.known[self.callee(n)].ret == "elem":
             return self.call(n, out, want_ret=True) if not target else self.bind_as(target, self.call(n, out, want_ret=True), out)
         elif k in ("CStyleCastExpr", "ImplicitCastExpr") and n.get("castKind") == "IntegralToFloating" and self.is_idx_expr(n["inner"][0]):
             self.need_double(n); self.vnum = True                    # `(double) n` for a length / index
             a = "(VNum.ofNat (%s).toNat : α)" % self.idx(n["inner"][0])
+        elif k in ("ImplicitCastExpr", "CStyleCastExpr") and n.get("castKind") == "FloatingCast" and self.elemtype == "float" \
+                and strip_q(n["type"]["qualType"]) == "float" and self.is_wide(n["inner"][0]):
+            w = self.welem(n["inner"][0], out)                       # `(float) <double expression>`: the one rounding to binary32
+            self.mix = True
+            a = "(VMix.narrow %s)" % w
         elif k == "ImplicitCastExpr":
             raise Unsupported("%s: conversion %s to %s" % (self.where(n), n.get("castKind"), n["type"]["qualType"]))
         else:
@@ -365,8 +373,56 @@ class Fn:
     def need_double(self, n):
         """the floating-point forms are translated for `double` routines only: in a `float` routine the C source mixes binary32 and
         binary64 sub-expressions, which this one-type translation does not express (those routines stay with the hand model)"""
+        if self.elemtype == "float":
+            t = strip_q(n.get("type", {}).get("qualType", "float"))
+            if t not in ("float", "const float", "void", "int"):
+                raise Unsupported("%s: %s-typed floating-point form reached the float path" % (self.where(n), t))
+            return
         if self.elemtype != "double":
             raise Unsupported("%s: floating-point expression form in a routine over %s" % (self.where(n), self.elemtype))
+
+    def is_wide(self, n):
+        """in a `float` routine: is this expression evaluated in `double` by the C text?"""
+        if self.elemtype != "float":
+            return False
+        return strip_q(unwrap(n).get("type", {}).get("qualType", "")) == "double"
+
+    def welem(self, n, out):
+        """a `double`-typed expression inside a `float` routine -> Lean atom of the wide type `ω` (operations of `VInf ω`; total)"""
+        n0 = n
+        n = unwrap(n)
+        k = n["kind"]
+        if strip_q(n.get("type", {}).get("qualType", "")) != "double":
+            raise Unsupported("%s: %s-typed expression where a double is expected" % (self.where(n), n.get("type", {}).get("qualType")))
+        self.mix = True
+        if k in ("ImplicitCastExpr", "CStyleCastExpr") and n.get("castKind") == "FloatingCast" and not self.is_wide(n["inner"][0]):
+            if self.inf_tree(n0) is not None:
+                self.winf = True
+                return "(VInf.inf : ω)" if self.inf_tree(n0) == 1 else "(VInf.neg (VInf.inf : ω))"
+            x = self.elem(n["inner"][0], out)                        # `(double) <float expression>`: exact
+            return "(VMix.widen %s : ω)" % x
+        lit = self.int_literal(n)
+        if lit is not None:
+            if lit < 0: self.winf = True
+            return "(VInf.neg (VNum.ofNat %d : ω))" % -lit if lit < 0 else "(VNum.ofNat %d : ω)" % lit
+        if k == "BinaryOperator" and n["opcode"] in ("+", "-", "*", "/"):
+            x = self.welem(n["inner"][0], out)
+            y = self.welem(n["inner"][1], out)
+            a = self.fresh()
+            out.append("let %s : ω := %s %s %s" % (a, x, n["opcode"], y)); self.stats["n_ops"] += 1
+            return a
+        if k == "UnaryOperator" and n["opcode"] == "-":
+            self.winf = True
+            return "(VInf.neg %s)" % self.welem(n["inner"][0], out)
+        if k == "CallExpr" and self.callee(n) in LIBM_D:
+            if len(n["inner"]) != 2:
+                raise Unsupported("%s: argument count of %s" % (self.where(n), self.callee(n)))
+            if not LIBM_D[self.callee(n)].startswith("VNum."): self.winf = True
+            x = self.welem(n["inner"][1], out); self.stats["n_calls"] += 1
+            return "(%s %s)" % (LIBM_D[self.callee(n)], x)
+        if k in ("CStyleCastExpr", "ImplicitCastExpr") and n.get("castKind") == "IntegralToFloating" and self.is_idx_expr(n["inner"][0]):
+            return "(VNum.ofNat (%s).toNat : ω)" % self.idx(n["inner"][0])
+        raise Unsupported("%s: double-typed expression of kind %s %s in a float routine" % (self.where(n), k, n.get("opcode", "")))
 
     def is_inf(self, n):
         return self.inf_tree(n) == 1
@@ -410,6 +466,14 @@ class Fn:
                 if self.is_idx_expr(n["inner"][0]) and self.is_idx_expr(n["inner"][1]):
                     a, b = self.idx(n["inner"][0]), self.idx(n["inner"][1])
                     return "(decide (%s %s %s))" % (a, {"<": "<", ">": ">", "<=": "≤", ">=": "≥", "==": "=", "!=": "≠"}[op], b)
+                if self.is_wide(n["inner"][0]) and self.is_wide(n["inner"][1]):      # float routine: the comparison is made in double
+                    a = self.welem(n["inner"][0], out)
+                    b = self.welem(n["inner"][1], out)
+                    if op == "<": return "(VOrd.lt %s %s)" % (a, b)
+                    if op == ">": return "(VOrd.lt %s %s)" % (b, a)
+                    if op == "==": return "(VNum.eq %s %s)" % (a, b)
+                    if op == "!=": return "(!(VNum.eq %s %s))" % (a, b)
+                    raise Unsupported("%s: %s on elements (NaN-sensitive) is outside the subset" % (self.where(n), op))
                 a = self.elem(n["inner"][0], out)
                 b = self.elem(n["inner"][1], out)
                 if op == "<": return "(VOrd.lt %s %s)" % (a, b)
@@ -518,7 +582,14 @@ class Fn:
         k = self.kind.get(nm)
         v = self.ident(nm)
         if k == "elem":
-            if compound:
+            if compound and self.elemtype == "float" and node is not None and strip_q(node.get("computeResultType", {}).get("qualType", "")) == "double":
+                cur = self.elem({"kind": "DeclRefExpr", "referencedDecl": {"name": nm}}, lines)      # `x += <double>`: widen, operate in double, round once
+                y = self.welem(rhs, lines)
+                t = self.fresh()
+                lines.append("let %s : ω := (VMix.widen %s : ω) %s %s" % (t, cur, compound, y))
+                lines.append("let %s := VMix.narrow %s" % (v, t))
+                self.mix = True; self.stats["n_ops"] += 1
+            elif compound:
                 cur = self.elem({"kind": "DeclRefExpr", "referencedDecl": {"name": nm}}, lines)
                 y = self.elem(rhs, lines)
                 lines.append("let %s ← CElem.%s %s %s" % (v, {"+": "add", "-": "sub", "*": "mul"}[compound], cur, y))
@@ -545,6 +616,8 @@ class Fn:
         self.vcmp = self.vcmp or getattr(sig, "vcmp", False)
         self.vinf = self.vinf or getattr(sig, "vinf", False)
         self.vnum = self.vnum or getattr(sig, "vnum", False)
+        self.mix = self.mix or getattr(sig, "mix", False)
+        self.winf = self.winf or getattr(sig, "winf", False)
         args, wr = [], []
         for a, (pn, pk) in zip(n["inner"][1:], sig.params):
             if pk == "arr":
@@ -595,6 +668,8 @@ class Fn:
             if l["kind"] == "ArraySubscriptExpr":
                 arr = self.arr_of(l["inner"][0])
                 i = self.idx(l["inner"][1])
+                if op != "=" and strip_q(s.get("computeResultType", {}).get("qualType", self.elemtype)) not in (self.elemtype, {"int64_t": "long"}.get(self.elemtype, "")):
+                    raise Unsupported("%s: compound assignment computed at type %s" % (self.where(s), s.get("computeResultType", {}).get("qualType")))
                 if op == "=":
                     v = self.elem(rhs, lines)
                 elif op == "/=":
@@ -748,7 +823,7 @@ class Fn:
                         r = "(%s : Int)" % self.wrap_int(e)
                     elif self.ret == "idx":
                         r = "(%s : Int)" % self.idx(e)
-                    elif unwrap(e)["kind"] == "CallExpr":
+                    elif unwrap(e)["kind"] == "CallExpr" and self.inf_tree(e) is None:
                         r = self.call(unwrap(e), pre, want_ret=True)
                     else:
                         r = self.elem(e, pre)
@@ -884,11 +959,13 @@ class Fn:
         sig.vcmp = self.vcmp
         sig.vinf = self.vinf
         sig.vnum = self.vnum
+        sig.mix = self.mix
+        sig.winf = self.winf
         return doc + "\n" + head + "\n" + "\n".join(text_lines) + "\n", sig
 
     def binders(self):
         return (("[CWrap α] " if self.wrap else "") + ("[VCmp α] " if self.vcmp else "") +
-                ("[VInf α] " if self.vinf else "[VNum α] " if self.vnum else ""))
+                ("[VInf α] " if self.vinf else "[VNum α] " if self.vnum else "") + ("{ω : Type} [VMix α ω] [%s ω] " % ("VInf" if self.winf else "VNum") if self.mix else ""))
 
     def result(self, r):
         return r or ""
@@ -939,6 +1016,7 @@ def plan():
     vec += [("esl_vec_WCopy", None, ""), ("esl_vec_BCopy", None, "")]
     # the probability / log-space routines over `double` (the `float` versions mix binary32 and binary64: hand model Vec/Model.lean)
     vec += [("esl_vec_D%s" % r, None, "") for r in ("Norm", "Log", "Log2", "Exp", "Exp2", "LogSum", "Log2Sum", "LogNorm", "Log2Norm", "Entropy")]
+    vec += [("esl_vec_F%s" % r, None, "") for r in ("Norm", "Log", "Log2", "Exp", "Exp2", "LogSum", "Log2Sum", "LogNorm", "Log2Norm", "Entropy")]
     vec += [("esl_vec_DCDF", None, ""), ("esl_vec_DCDF", {"cdf": "p"}, "_inplace"), ("esl_vec_FCDF", None, ""), ("esl_vec_FCDF", {"cdf": "p"}, "_inplace")]
     cmpf = [("qsort_%s%s" % (T, d), None, "") for d in ("Increasing", "Decreasing") for T in VEC_TYPES]
     sort = [("esl_vec_%sSort%s" % (T, d), None, "") for d in ("Increasing", "Decreasing") for T in VEC_TYPES]
@@ -962,7 +1040,7 @@ def generate(src_dir, the_plan=None):
             if not alias:
                 known[nm] = sig
             chunks.append(text)
-            infos.append({"name": t.name, "elem": t.elemtype, "wrap": t.wrap, "vcmp": t.vcmp, "vinf": t.vinf or t.vnum, "params": sig.params, "writes": sig.writes, "ret": sig.ret, "monadic": t.monadic, **t.stats})
+            infos.append({"name": t.name, "elem": t.elemtype, "wrap": t.wrap, "vcmp": t.vcmp, "vinf": t.vinf or t.vnum or t.mix, "mix": t.mix, "params": sig.params, "writes": sig.writes, "ret": sig.ret, "monadic": t.monadic, **t.stats})
     disp = ["/-- name → translated function; arguments grouped by kind in parameter order (arrays, indices, elements);",
             "    outer `none` = unknown name / wrong arity, inner `none` = the routine faults -/",
             "def dispatch %s(name : String) (A : List (Array α)) (I : List Int) (E : List α) : Option (Option (Res α)) :=" % ("[CWrap α] " if any(i["wrap"] for i in infos) else ""),
